@@ -49,7 +49,7 @@ type c09Pool struct {
 	flipped     int
 	duplicates  int
 	invertedAlt int
-	relaxed     bool // termination pool: superset-of-simple + closed-walk rule
+	relaxed     bool       // termination pool: superset-of-simple + closed-walk rule
 	other       *c10Enzyme // a second built-in enzyme whose site lies inside one insert (inert for the pool's own enzyme)
 }
 
